@@ -31,12 +31,12 @@ def args_ok(log, decls):
     return OK
 
 
-def ob_init_agent(names, cname, kind, dname="min", extra=0):
+def ob_init_agent(names, cname, kind, dname="min", extra=0, symbolic_bounds=False):
     def f():
         st = stubs.Stream("np")
         layers = [stubs.numpy_stream_layer(lambda: st)] if cname == "base" else []
         with env(*layers, rng_deny=(cname == "base")):
-            fu = Funnel(names, cname, DIRS[dname], 1, kind=kind, extra_coords=extra)
+            fu = Funnel(names, cname, DIRS[dname], 1, kind=kind, extra_coords=extra, symbolic_bounds=symbolic_bounds)
             try:
                 fu.run()
             except (ValueError, OverflowError, TypeError):
@@ -105,6 +105,9 @@ def obligations(tier):
             obs.append(Ob(f"solve[{'+'.join(names)},{kind}]", ob_solve(names, kind), t))
     for names in (("D3",), ("DM2",), ("B2",), ("C", "D3"), ("DM1", "B1"), ("C",)):
         obs.append(Ob(f"init_agent[{'+'.join(names)},int]", ob_init_agent(names, "base", "int"), 300))
+    # bounds as solver variables (bounds that are not short decimals: pi, 1/3, ...)
+    obs.append(Ob("init_agent_symbolic_bounds[C,ext]", ob_init_agent(("C",), "base", "ext", symbolic_bounds=True), 300))
+    obs.append(Ob("init_agent_symbolic_bounds[C+C,real]", ob_init_agent(("C", "C"), "base", "real", symbolic_bounds=True), 300))
     obs.append(Ob("init_agent_extra_coords[C+D3]", ob_init_agent(("C", "D3"), "base", "any", extra=2), 300))
     obs.append(Ob("init_agent_max[C+D3]", ob_init_agent(("C", "D3"), "base", "any", dname="max"), 300))
     for cname in init_agent_overrides():
